@@ -672,6 +672,80 @@ class SSeq:
         out.append(mk_seq(self.el[pos:], self.kind))
         return out
 
+    LINE_BREAKS_BYTES = (10, 13)
+    LINE_BREAKS_STR = (10, 11, 12, 13, 0x1c, 0x1d, 0x1e, 0x85, 0x2028, 0x2029)
+
+    def splitlines(self, keepends=False):
+        """bytes.splitlines / str.splitlines: breaks at \n, \r, \r\n (and the Unicode line
+        boundaries for str); forks per element"""
+        brk = self.LINE_BREAKS_BYTES if self.kind is bytes else self.LINE_BREAKS_STR
+        out = []
+        start = 0
+        i = 0
+        n = len(self.el)
+        while i < n:
+            e = self.el[i]
+            if _br(disj(el_eq(e, b) for b in brk)):
+                end = i + 1
+                if end < n and _br(conj([el_eq(e, 13), el_eq(self.el[end], 10)])):
+                    end += 1
+                out.append(mk_seq(self.el[start:end] if keepends else self.el[start:i], self.kind))
+                start = i = end
+            else:
+                i += 1
+        if start < n:
+            out.append(mk_seq(self.el[start:], self.kind))
+        return out
+
+    def rsplit(self, sep=None, maxsplit=-1):
+        if sep is None:
+            raise Unmodelled('rsplit() on whitespace')
+        sub = self._lift(sep)
+        if maxsplit < 0:
+            return self.split(sep)
+        out = []
+        end = len(self.el)
+        n = 0
+        while n < maxsplit:
+            i = -1
+            for j in range(end - len(sub), -1, -1):
+                if _br(self.at(sub, j)):
+                    i = j
+                    break
+            if i < 0:
+                break
+            out.append(mk_seq(self.el[i + len(sub):end], self.kind))
+            end = i
+            n += 1
+        out.append(mk_seq(self.el[:end], self.kind))
+        return out[::-1]
+
+    def rpartition(self, sep):
+        i = self.rfind(sep)
+        sub = self._lift(sep)
+        if i < 0:
+            return (mk_seq((), self.kind), mk_seq((), self.kind), self)
+        return (mk_seq(self.el[:i], self.kind), mk_seq(sub, self.kind), mk_seq(self.el[i + len(sub):], self.kind))
+
+    def removeprefix(self, p):
+        sub = self._lift(p)
+        if _br(self.at(sub, 0)):
+            return mk_seq(self.el[len(sub):], self.kind)
+        return self
+
+    def removesuffix(self, p):
+        sub = self._lift(p)
+        if len(sub) and _br(self.at(sub, len(self.el) - len(sub))):
+            return mk_seq(self.el[:len(self.el) - len(sub)], self.kind)
+        return self
+
+    def isalpha(self):
+        if not self.el:
+            return False
+        if self.kind is str:
+            self._ascii_only('isalpha')
+        return mkb(conj(disj([rng(e, 65, 90), rng(e, 97, 122)]) for e in self.el))
+
     def partition(self, sep):
         i = self.find(sep)
         sub = self._lift(sep)
